@@ -7,7 +7,7 @@ from .common import TYPE_ENUM
 
 NAME_MAP = {"Referent": "Ref", "OptionalCoordinateFrame": "OptionalCFrame"}
 DOC_ONLY = {"Bytecode": "docs/binary.md: read/written as-is by Roblox only when signed; rbx_binary has no Type variant (README: unimplemented)"}
-CODE_ONLY = {"SecurityCapabilities": "present in code (0x21) but not yet documented in docs/binary.md"}
+CODE_ONLY = {}     # every wire type the code writes must have a section in docs/binary.md
 
 
 def rule_ids(c, prog):
